@@ -155,6 +155,21 @@ func (fc *FuncCtx) verifyBody(short string) {
 		fc.u.fact("true", ev.evalBool(rq.E))
 		fc.clauseHit[rq]++
 	}
+	if fc.guardMode && fc.guardAcc != nil {
+		// lock-free accessor: the lock of the object it is handed is held on entry (checked at every call site)
+		for pi, lock := range fc.guardAcc[fn] {
+			if pi < len(params) {
+				pv, ok := fr.vals[params[pi]].(Scalar)
+				pt, isPtr := params[pi].Type().Underlying().(*types.Pointer)
+				if ok && isPtr {
+					key := "L!O!" + typeKey(pt.Elem()) + "." + lock
+					cur := fc.compTerm(st, key, "(Array Int Bool)")
+					fc.setComp(st, key, "(Array Int Bool)", "(store "+cur+" "+pv.T+" true)")
+					fc.u.fact("true", tNot(tEq(pv.T, "0")))
+				}
+			}
+		}
+	}
 	for _, as := range con.Assumes {
 		ev := fc.newEnv(fr, st, st)
 		ev.useEntryParams = true
